@@ -25,6 +25,8 @@ BUDGET = {"quick": 900, "thorough": 1800}
 
 
 KF_SPLIT = "C02-multi-inverter-greedy-split"
+IEEE_SOC = [13.7, 52.3, 71.9, 33.1]
+IEEE_CAP = [7300.0, 11900.0, 5100.0, 10000.0]
 _installed = False
 
 
@@ -47,12 +49,25 @@ def install():
     BatteryDistributionAlgorithm._distribute_multi_inverter_pairs = wrapper
 
 
-def make(shape, exponent, sign, boundary=None, reach=False, wide_battery=False, soc_pattern=None, oneway=None):
+def make(shape, exponent, sign, boundary=None, reach=False, wide_battery=False, soc_pattern=None, oneway=None, ieee=False):
+    """ieee: fully concrete non-round data enumerated on a small grid (see IEEE_*), high distributor exponents: the run is IEEE arithmetic of the real code."""
     shape = tuple(tuple(s) for s in shape)
 
     def fn(ex):
-        pairs, groups = dist.build(ex, shape, wide_battery=wide_battery, soc_pattern=soc_pattern, oneway=oneway)
-        P, dirs = dist.request(ex, groups, sign)
+        if ieee:
+            conc = []
+            for g in range(len(shape)):
+                full = (g == len(shape) - 1)   # the last group has no SoC headroom in the direction of the request
+                soc = (90.0 if sign > 0 else 10.0) if full else IEEE_SOC[ex.choice(f"soc{g}", len(IEEE_SOC))]
+                bnd = dict(il=-1000.0, el=-100.0, eu=100.0, iu=1000.0)
+                conc.append((dict(cap=IEEE_CAP[g % len(IEEE_CAP)], soc=soc, slo=10.0, shi=90.0, **bnd), bnd))
+            pairs, groups = dist.build(ex, shape, concrete=conc)
+            n = len(shape)
+            pv = [100.0 * n, 1000.0 * (n - 1), 100.0 * n + 37.3, 512.9][ex.choice("request", 4)] * sign
+            P, dirs = dist.request(ex, groups, sign, value=pv)
+        else:
+            pairs, groups = dist.build(ex, shape, wide_battery=wide_battery, soc_pattern=soc_pattern, oneway=oneway)
+            P, dirs = dist.request(ex, groups, sign)
         mag = E(P) * sign
         if boundary == "excl":
             ex.assume(mag == sum(d.adv_excl for d in dirs))
@@ -111,6 +126,9 @@ def instances(tier):
         I("3x(1x1)+soc-oneway", "make", (((1, 1),) * 3, 1.0, 1, None, False, False, (20.0, 85.0, 85.0), {2: 1}), "3 groups with concrete SoC data (headroom 80/15/15 %), the third a "
           "charge-only group without exclusion zone (inclusion lower bounds and exclusion bounds concrete 0); the other bounds and the request symbolic (budgeted)",
           budget_s=90, exhaustive=False, incremental=True, validate_every=200, timeout_ms=30000, decision_limit=120),
+        I("ieee-4x(1x1)+e5", "make", (((1, 1),) * 4, 5.0, 1, None, False, False, None, None, True), "concrete non-round data (4 SoC values per group, 4 requests), distributor exponent 5, "
+          "the last group without SoC headroom: IEEE arithmetic of the real code", budget_s=60, validate_every=0),
+        I("ieee-4x(1x1)-e6", "make", (((1, 1),) * 4, 6.0, -1, None, False, False, None, None, True), "same, supply, exponent 6", budget_s=60, validate_every=0),
         I("2x(1x1)+", "make", (g2, 1.0, 1), "2 groups of 1 battery + 1 inverter, consume", budget_s=600, **kw),
         I("2x(1x1)+@excl", "make", (g2, 1.0, 1, "excl"), "request exactly the advertised exclusion bound", budget_s=300, **kw),
         I("2x(1x1)+@incl", "make", (g2, 1.0, 1, "incl"), "request exactly the advertised inclusion bound", budget_s=300, **kw),
